@@ -347,6 +347,15 @@ fn episode(ctx: &Ctx, case: u64, out: &mut Out) {
         }
     });
     let fault_hit = fault_at.is_some() && crate::shim::fail_hit().is_some();
+    if std::env::var_os("BCVERIF_VERBOSE").is_some() {
+        for e in &rec.events {
+            if e.is_mark(M_OP_BEGIN) && e.a != u64::MAX {
+                eprintln!("op {} {} -> {}", e.a, plan.ops[e.a as usize].brief(), rec.results.get(e.a as usize).map(|r| r.brief()).unwrap_or_default());
+            } else if e.kind != K_CLOSE && e.kind != K_MMAP && e.kind != K_MARK && !(e.kind == K_OPEN && e.a & libc::O_CREAT as u64 == 0) {
+                eprintln!("     {}", e.brief());
+            }
+        }
+    }
     crate::shim::fail_off();
     crate::shim::short_writes(0, 0);
     out.count("episodes_recorded", 1);
